@@ -9,6 +9,8 @@ import (
 	"os/exec"
 	"strconv"
 	"strings"
+	"syscall"
+	"time"
 
 	"verif/harness/core"
 	"verif/harness/host"
@@ -73,8 +75,24 @@ func runChild(spec string, gomaxprocs int, cpus string) ([]string, error) {
 	var out, errb bytes.Buffer
 	cmd.Stdout = &out
 	cmd.Stderr = &errb
-	if err := cmd.Run(); err != nil {
-		return nil, fmt.Errorf("%v: %s", err, core.Clip(errb.String(), 2000))
+	if err := cmd.Start(); err != nil {
+		return nil, err
+	}
+	done := make(chan error, 1)
+	go func() { done <- cmd.Wait() }()
+	select {
+	case err := <-done:
+		if err != nil {
+			return nil, fmt.Errorf("%v: %s", err, core.Clip(errb.String(), 2000))
+		}
+	case <-time.After(childDeadline):
+		// a child normally needs one or two seconds; not finishing within the (very generous)
+		// deadline means the execution hangs under this configuration
+		_ = cmd.Process.Signal(syscall.SIGQUIT)
+		time.Sleep(500 * time.Millisecond)
+		_ = cmd.Process.Kill()
+		<-done
+		return nil, errChildHung{dump: core.Clip(errb.String(), 6000)}
 	}
 	var hs []string
 	for _, l := range strings.Split(out.String(), "\n") {
@@ -112,8 +130,8 @@ func scenarioHashes(s *Scenario, eng host.Engine) []string {
 
 func init() {
 	core.Register(&core.Prop{
-		ID:   "C33",
-		Rule: "generated scenarios (4 scripts + a contract deployment and 3..6 resource/storage transactions touching several slabs) are executed 3x in one process and once in each of 3 fresh processes pinned to 1, 2 and all CPUs with GOMAXPROCS 1/4/16; the hash of the full ordered host trace (every callback incl. SetValue keys and values, events, logs) plus result and error text is compared; each engine (I, V) with itself; distinct = distinct program text",
+		ID:          "C33",
+		Rule:        "generated scenarios (4 scripts + a contract deployment and 3..6 resource/storage transactions touching several slabs) are executed 3x in one process and once in each of 3 fresh processes pinned to 1, 2 and all CPUs with GOMAXPROCS 1/4/16; the hash of the full ordered host trace (every callback incl. SetValue keys and values, events, logs) plus result and error text is compared; each engine (I, V) with itself; distinct = distinct program text",
 		Assumptions: []string{"the harness host is deterministic (no wall clock, no map iteration in anything hashed)"},
 		NumCases: func(tier string) int {
 			if tier == "thorough" {
@@ -179,6 +197,12 @@ func runC33(c *core.Ctx) {
 			cpus  string
 		}{{"1cpu", 1, fmt.Sprint(c.Case % ncpu)}, {"2cpu", 4, fmt.Sprintf("%d,%d", c.Case%ncpu, (c.Case+1)%ncpu)}, {"allcpu", 16, ""}} {
 			hs, err := runChild(spec, cfg.procs, cfg.cpus)
+			if hung, ok := err.(errChildHung); ok {
+				c.Violate(fmt.Sprintf("execution-hangs[%s] fresh-process-%s", eng, cfg.label),
+					fmt.Sprintf("engine %s: the scenario that completes in this process did not finish within %s in a fresh process with %s (GOMAXPROCS=%d, cpus=%q)", eng, childDeadline, cfg.label, cfg.procs, cfg.cpus),
+					map[string]any{"engine": eng.String(), "config": cfg.label, "contract": s.Contract, "goroutine_dump": hung.dump, "seed": c.Seed, "case": c.Case})
+				continue
+			}
 			if err != nil {
 				c.Inc("child_failed")
 				c.Note("child_error", err.Error())
@@ -229,8 +253,8 @@ func meteringHashes(s *Scenario, eng host.Engine) []string {
 
 func init() {
 	core.Register(&core.Prop{
-		ID:   "C31",
-		Rule: "generated scenarios (3 scripts + deployment + 3..6 transactions) run with recording memory and computation gauges; the exact (kind, amount) call sequence of each execution is compared between: first thing in a fresh process, twice in a row, and in this long-lived worker after a random prefix of 5..30 other generated programs on both engines (warming the caches); each engine with itself; distinct = distinct program text",
+		ID:          "C31",
+		Rule:        "generated scenarios (3 scripts + deployment + 3..6 transactions) run with recording memory and computation gauges; the exact (kind, amount) call sequence of each execution is compared between: first thing in a fresh process, twice in a row, and in this long-lived worker after a random prefix of 5..30 other generated programs on both engines (warming the caches); each engine with itself; distinct = distinct program text",
 		Assumptions: []string{"the gauge records every MeterMemory / MeterComputation call the runtime makes through Context.MemoryGauge / ComputationGauge"},
 		NumCases: func(tier string) int {
 			if tier == "thorough" {
